@@ -100,7 +100,7 @@ func runsFor(prop, tier string) []run {
 			{"rf5-from-initial", ini(5, 5), pick(6, 7), minutes(pickf(0.4, 3))},
 		}
 	case "C04":
-		alpha := []string{"W0", "R", "Add", "Sync", "Verify", "VerifyF", "VerifyEarly", "Remove", "ERR", "MonFail", "Restart"}
+		alpha := []string{"W0", "R", "Add", "Reb", "Sync", "Verify", "VerifyF", "VerifyEarly", "Remove", "ERR", "MonFail", "Restart"}
 		or := []string{"c04", "c07", "c10"}
 		mk := func(init []string, drain bool) eb.Cfg {
 			a := alpha
